@@ -234,6 +234,8 @@ func init() {
 			n := runNF(c, c.G, r, "NF", fnsOf(qm), c.REval)
 			r.RequireMin("NF accessor sites in the predicate machinery", n, 7)
 			runPureSet(c, r, qm, 5)
+			af := runACCFRESH(c, r, "ACCFRESH")
+			r.RequireMin("ACCFRESH appends to the survivor list in applyFilter", af, 1)
 			fa := runFILTERALL(c, r, "FILTERALL")
 			r.RequireMin("FILTERALL loops over the items in applyFilter", fa, 1)
 			lf := runLISTFLOW(c, r, "LISTFLOW")
@@ -302,7 +304,7 @@ func init() {
 	})
 	register(&propDef{
 		ID:          "C10",
-		Explanation: "Decides: (SEQ) no *sequence escapes (see C01); (FIN) every float result of every function bound in the base environment (and their callees) and every float boxed into a value under Eval is finite or guarded by two-sided IsInf/IsNaN tests; (MARSHAL) every type implementing jtypes.Callable marshals as the constant \"\" through callableMarshaler, every built-in's first result type is JSON-closed, jsonata.ErrUndefined is referenced only by Expr.Eval and returned exactly on the !IsValid edge, and EvalBytes is json.Unmarshal(error checked) -> Eval(on the decoded value, error checked) -> json.Marshal(of Eval's result). (BOXVAL) no reflect.Value handle is boxed into an interface{} that is returned or stored as data (a missing .Interface() would put an internal type, which marshals as {}, into the result). NOT decided: that every nested value of every result is JSON-representable. Every callable struct type has MarshalJSON in its value method set (jtypes.Resolve dereferences callables).",
+		Explanation: "Decides: (SEQ) no *sequence escapes (see C01); (FIN) every float result of every function bound in the base environment (and their callees) and every float boxed into a value under Eval is finite or guarded by two-sided IsInf/IsNaN tests; (MARSHAL) every type implementing jtypes.Callable marshals as the constant \"\" through callableMarshaler, every built-in's first result type is JSON-closed, jsonata.ErrUndefined is referenced only by Expr.Eval and returned exactly on the !IsValid edge, and EvalBytes is json.Unmarshal(error checked) -> Eval(on the decoded value, error checked) -> json.Marshal(of Eval's result). (BOXVAL) no reflect.Value handle is boxed into an interface{} that is returned or stored as data (a missing .Interface() would put an internal type, which marshals as {}, into the result). NOT decided: that every nested value of every result is JSON-representable. Every callable struct type has MarshalJSON in its value method set (jtypes.Resolve dereferences callables). (NUMGATE) strconv.ParseFloat in $number sits behind the package-level pattern whose language is the JSON number grammar, so the strings inf/infinity/nan that ParseFloat would turn into non-finite values never reach it.",
 		Rule:        commonRule,
 		Fixtures:    []string{"seq", "fin", "marshal"},
 		Run: func(c *Ctx, r *Result) {
@@ -313,6 +315,10 @@ func init() {
 			m := runFINBoxing(c, e, r, "FIN", srcFuncsIn(c.REval))
 			r.RequireMin("FIN float boxing sites under Eval", m, 3)
 			runMARSHAL(c, r, "MARSHAL")
+			// $number: ParseFloat also accepts "inf", "infinity" and "nan" in any case, with a sign;
+			// the finiteness of $number's result rests on the syntax gate in front of it
+			ng10 := runNUMGATE(c, r, "NUMGATE")
+			r.RequireMin("NUMGATE ParseFloat calls in $number", ng10, 1)
 			bv := runBOXVAL(c, r, "BOXVAL", libFuncsIn(c, c.REval), c.REval)
 			r.Count("BOXVAL reflect.Value boxed into interface{} under Eval", bv)
 			r.Assume("numbers entering evaluation (decoded JSON, number literals) are finite")
@@ -471,6 +477,8 @@ func init() {
 			}
 			pi := runPERITEM(c, r, "PERITEM", sortParsers)
 			r.RequireMin("PERITEM fields of sort terms recorded in parser loops", pi, 2)
+			sg := runSORTGATE(c, r, "SORTGATE")
+			r.RequireMin("SORTGATE calls of type-filtering collectors", sg, 2)
 			sv := runSORTVALID(c, r, "SORTVALID")
 			r.RequireMin("SORTVALID value returns of the callers of the sort-key validator", sv, 1)
 			st := runSORTTYPES(c, r, "SORTTYPES")
